@@ -291,9 +291,20 @@ def fxp_bound(call, x, y):
     if fn in ('median_low', 'median_high', 'mode'):
         return 0.0
     if fn == 'quantiles':
-        spread = max(X) - min(X)
-        nq = call[1]
-        return (spread * (nq + 1) / 2 + 3) * u          # |(d[j+1]-d[j])·delta| <= spread·(n+1) at the clamped ends
+        nq, method = call[1], call[2]
+        d = sorted(X)
+        ld = len(d)
+        bounds = []
+        for i in range(1, nq):          # the interpolation term (d[j+1]-d[j])·delta is divided by the public n
+            if method == 'inclusive':
+                j, delta = divmod(i * (ld - 1), nq)
+                a_ = (d[j + 1] - d[j]) * delta if delta else 0.0
+            else:
+                j = min(max(i * (ld + 1) // nq, 1), ld - 1)
+                delta = i * (ld + 1) - j * nq
+                a_ = (d[j] - d[j - 1]) * delta
+            bounds.append((abs(a_) / 2 + 3) * u)
+        return bounds
     Y = [float(a) for a in y]
     ex = (abs(sum(X)) / 2 + 2) * u
     ey = (abs(sum(Y)) / 2 + 2) * u
@@ -306,8 +317,9 @@ def fxp_bound(call, x, y):
     e_sxy = ex * dy + ey * dx + n * ex * ey + 2 * u
     if fn == 'covariance':
         return e_sxy / (n - 1) + (abs(sxy) / 2 + 3) * u
-    # divisions by SECRET numbers (Newton reciprocal, C02): relative error budget 2^-(F-4) on top of the propagated one
-    rel = 2.0 ** -(F - 4)
+    # divisions by SECRET numbers (Newton reciprocal `_rec`, C02): 1/den has absolute error <= 3 ulp + 2^-13/den
+    def e_rec(den):
+        return 3 * u + 2.0 ** -13 / den
     if fn == 'correlation':
         e_sxx = 2 * ex * dx + n * ex * ex + 2 * u
         e_syy = 2 * ey * dy + n * ey * ey + 2 * u
@@ -319,13 +331,13 @@ def fxp_bound(call, x, y):
         r = abs(sxy) / den
         if den - e_den <= 0:
             return float('inf')
-        return (e_sxy + r * e_den) / (den - e_den) + rel * (1 + r) + 4 * u
+        return (e_sxy + r * e_den) / (den - e_den) + (abs(sxy) + e_sxy) * e_rec(den - e_den) + 3 * u
     if fn == 'linear_regression':
         e_sxx = 2 * ex * dx + n * ex * ex + 2 * u
         if sxx - e_sxx <= 0:
             return [float('inf'), float('inf')]
         sl = abs(sxy) / sxx
-        e_sl = (e_sxy + sl * e_sxx) / (sxx - e_sxx) + rel * (1 + sl) + 4 * u
+        e_sl = (e_sxy + sl * e_sxx) / (sxx - e_sxx) + (abs(sxy) + e_sxy) * e_rec(sxx - e_sxx) + 3 * u
         e_ic = ey + e_sl * (abs(xb) + ex) + sl * ex + (abs(sl * xb) / 2 + 3) * u
         return [e_sl, e_ic]
     raise ValueError(fn)
@@ -337,25 +349,28 @@ def fxp_bound(call, x, y):
 QN = list(range(1, 13))
 
 
-def calls_for(x, y, typ, rng, full):
-    """calls for one data set (full: all quantile n for this data set, else a few)"""
+def calls_for(x, y, typ, rng, full, lite=False):
+    """calls for one data set.  full: every n and method of quantiles; lite: the cheap functions (no secure
+    comparisons) plus two of the comparison-based ones (rotating), used for the exhaustive sets in the quick tier"""
     n = len(x)
-    calls = [('mean',), ('median',), ('median_low',), ('median_high',), ('mode',), ('pvariance', None), ('pstdev', None)]
+    cheap = [('mean',), ('pvariance', None)]
+    costly = [('median',), ('median_low',), ('median_high',), ('mode',), ('pstdev', None)]
     if n >= 2:
-        calls += [('variance', None), ('stdev', None)]
-        mu = half_up(fractions.Fraction(sum(fr(x)), n)) if typ == 'int' else sum(x) / n
-        if typ == 'fxp':
-            mu = round(mu * 4) / 4
-        calls += [('variance', mu), ('pvariance', mu)]
+        cheap.append(('variance', None))
+        costly.append(('stdev', None))
+        mu = half_up(fractions.Fraction(sum(fr(x)), n)) if typ == 'int' else round(sum(x) / n * 4) / 4
+        cheap += [('variance', mu), ('pvariance', mu)]
         qs = [(q, meth) for q in QN for meth in ('exclusive', 'inclusive')]
-        calls += [('quantiles',) + q for q in (qs if full else rng.sample(qs, 3))]
+        costly += [('quantiles',) + q for q in (qs if full else rng.sample(qs, 3))]
         if y is not None:
-            calls.append(('covariance',))
+            cheap.append(('covariance',))
             if typ == 'fxp' and len(set(x)) > 1 and len(set(y)) > 1:
-                calls += [('correlation',), ('linear_regression',)]
+                costly += [('correlation',), ('linear_regression',)]
     if typ == 'fxp' and any(a != int(a) for a in x):
-        calls = [c for c in calls if c[0] != 'mode']          # mode needs integral values (ValueError otherwise)
-    return calls
+        costly = [c for c in costly if c[0] != 'mode']        # mode needs integral values (ValueError otherwise)
+    if lite and not full:
+        costly = rng.sample(costly, min(2, len(costly)))
+    return cheap + costly
 
 
 def small_exhaustive(maxlen):
@@ -381,36 +396,37 @@ def make_specs(ctx):
     rng = ctx.subrng('data')
     specs = []
     # exhaustive small data sets, m = 1
-    for typ, maxlen in (('int', 4), ('fxp', ctx.scale(3, 4))):
+    for typ, maxlen in (('int', 4), ('fxp', 3)):
         items = []
         for k, x in enumerate(small_exhaustive(maxlen)):
             xs = x if typ == 'int' else [float(a) for a in x]
             y = [xs[(i * 7 + 3) % len(xs)] for i in range(len(xs))]
             y[0] = xs[-1] + 1
-            items.append((xs, y, calls_for(xs, y, typ, rng, full=(k % ctx.scale(29, 3) == 0))))
-        for i in range(0, len(items), 24):
-            specs.append({'typ': typ, 'm': 1, 'no_prss': False, 'seed': rng.randrange(1 << 30), 'items': items[i:i + 24]})
+            items.append((xs, y, calls_for(xs, y, typ, rng, full=(k % ctx.scale(113, 3) == 0), lite=not ctx.thorough)))
+        for i in range(0, len(items), 12):
+            specs.append({'typ': typ, 'm': 1, 'no_prss': False, 'seed': rng.randrange(1 << 30), 'items': items[i:i + 12]})
     # random data sets, m = 1 and m = 3
     for typ in ('int', 'fxp'):
-        for m, cnt in ((1, ctx.scale(40, 300)), (3, ctx.scale(16, 120))):
+        for m, cnt in ((1, ctx.scale(16, 120)), (3, ctx.scale(6, 40))):
             items = []
             for k in range(cnt):
                 x, y = random_data(rng, typ)
-                items.append((x, y, calls_for(x, y, typ, rng, full=(k % 8 == 0 and m == 1))))
-            step = 8 if m == 1 else 2
+                items.append((x, y, calls_for(x, y, typ, rng, full=(k % 8 == 0 and m == 1 and ctx.thorough),
+                                              lite=(m == 3 and not ctx.thorough))))
+            step = 4 if m == 1 else 1
             for i in range(0, len(items), step):
                 specs.append({'typ': typ, 'm': m, 'no_prss': (i // step) % 2 == 1, 'seed': rng.randrange(1 << 30),
                               'items': items[i:i + step]})
     # square roots at the boundaries of the type
     roots = sorted({0, 1, 2, 3, 4, 2 ** (LI - 1) - 1, 2 ** (LI - 2), 2 ** (LI - 2) - 1} |
                    {k * k + d for k in (1, 2, 3, 7, 100, 181, 1000, 2047, 2048, 2896) for d in (-1, 0, 1)
-                    if 0 <= k * k + d < 2 ** (LI - 1)} | {rng.randrange(2 ** (LI - 1)) for _ in range(ctx.scale(10, 60))})
+                    if 0 <= k * k + d < 2 ** (LI - 1)} | {rng.randrange(2 ** (LI - 1)) for _ in range(ctx.scale(6, 60))})
     specs.append({'typ': 'int', 'm': 1, 'no_prss': False, 'seed': rng.randrange(1 << 30),
                   'items': [([0], None, [('_isqrt', a) for a in roots])]})
     specs.append({'typ': 'int', 'm': 3, 'no_prss': False, 'seed': rng.randrange(1 << 30),
                   'items': [([0], None, [('_isqrt', a) for a in roots[::4]])]})
     froots = [0.0, ULP, 2 * ULP, 0.25, 0.5, 1.0, 2.0, 3.0, 4.0, 100.0, 2.0 ** (LF - F - 2), 2.0 ** (LF - F - 1) - 1] + \
-        [rng.randrange(2 ** (LF - 2)) * ULP for _ in range(ctx.scale(10, 60))]
+        [rng.randrange(2 ** (LF - 2)) * ULP for _ in range(ctx.scale(6, 60))]
     specs.append({'typ': 'fxp', 'm': 1, 'no_prss': False, 'seed': rng.randrange(1 << 30),
                   'items': [([0.0], None, [('_fsqrt', a) for a in froots])]})
     return specs
@@ -563,7 +579,7 @@ def error_cases(ctx):
 
 def run(ctx):
     specs = make_specs(ctx)
-    nproc = min(12, max(1, (os.cpu_count() or 2) - 2))
+    nproc = 4       # the machine is shared: never more than 4 workers
     with multiprocessing.get_context('fork').Pool(nproc) as pool:
         batches = pool.map(run_batch, specs, chunksize=1)
     lines, impl = [], []
@@ -601,7 +617,7 @@ def search(ctx):
                 items.append((x, y, calls_for(x, y, typ, rng, full=False)))
             specs.append({'typ': typ, 'm': 1 if k % 3 else 3, 'no_prss': k % 2 == 1, 'seed': rng.randrange(1 << 30),
                           'items': items})
-    with multiprocessing.get_context('fork').Pool(12) as pool:
+    with multiprocessing.get_context('fork').Pool(4) as pool:
         for recs in pool.imap_unordered(run_batch, specs):
             for rec in recs:
                 check_record(ctx, rec)
